@@ -47,12 +47,15 @@ def digest(x):
 
 
 class World:
-  def __init__(self, name, seed, same_dims=False, nparams=2, ndata=2, with_arrays=None):
+  def __init__(self, name, seed, same_dims=False, nparams=2, ndata=2, with_arrays=None, indexed=False):
     self.name, self.seed = name, seed
     rng = np.random.default_rng(seed)
     self.kind = gen.KIND[name]
     self.has_thr = name in PAIR_CLASSIFIERS
     self.dims = [3] * ndata if same_dims else [2 + i for i in range(ndata)]
+    self.indexed = indexed
+    same_dims = same_dims or indexed
+    self.dims = [3] * ndata if same_dims else self.dims
     self.same_dims = same_dims
     with_arrays = same_dims if with_arrays is None else with_arrays
     self.train = []
@@ -125,26 +128,49 @@ class World:
       vs = []
       for v in range(2):
         idx, lab = gen.pairs_from(rng, X, y, 8 + 2 * v)
-        vs.append((X[idx], lab))
+        vs.append((X[idx], lab, idx))
       self.V.append(vs)
       Xq = X[:5].copy()
-      Pq = np.array([[X[0], X[1]], [X[2], X[2]], [X[3], X[4]], [X[1], X[0]]])
+      pqi = np.array([[0, 1], [2, 2], [3, 4], [1, 0]])
+      Pq = X[pqi]
       q = {'transform': ('transform', (Xq,)), 'pair_distance': ('pair_distance', (Pq,)),
            'pair_score': ('pair_score', (Pq,)), 'get_mahalanobis_matrix': ('get_mahalanobis_matrix', ()),
            'components_': ('attr', ('components_',))}
+      qidx = {'transform': (np.arange(5),), 'pair_distance': (pqi,), 'pair_score': (pqi,)}
       if self.kind in ('pairs', 'triplets', 'quadruplets'):
         ts = gen.TUPLE_SIZE[self.kind]
         ridx = rng.integers(len(X), size=(6, ts))
         tq = X[ridx]
         q['predict'] = ('predict', (tq,))
         q['decision_function'] = ('decision_function', (tq,))
+        qidx['predict'] = (ridx,)
+        qidx['decision_function'] = (ridx,)
         if self.kind == 'pairs':
           q['score'] = ('score', (tq, np.array([1, -1, 1, -1, 1, -1])))
+          qidx['score'] = (ridx, np.array([1, -1, 1, -1, 1, -1]))
         else:
           q['score'] = ('score', (tq,))
+          qidx['score'] = (ridx,)
       self.Q.append(q)
+      self.Qidx = getattr(self, 'Qidx', []) + [qidx]
     self.qnames = sorted(self.Q[0].keys())
     self.nt, self.nv, self.ns = len(self.T), 2, 2
+    if indexed:
+      # every data-taking call gets INDICES; each parameter setting carries its own array preprocessor (different
+      # points under the same indices), so a stale preprocessor_ shows up as a wrong model / output
+      offs = np.cumsum([0] + [len(t['X']) for t in self.train])
+      store0 = np.vstack([t['X'] for t in self.train])
+      stores = [store0, gen.grid(store0 * 1.5 + rng.normal(size=store0.shape) * 0.25)]
+      for j, pj in enumerate(self.P):
+        pj['preprocessor'] = stores[j % 2]
+      for i, t in enumerate(self.train):
+        a = list(t['fit_args'])
+        a[0] = (t['idx'] + offs[i]) if t['idx'] is not None else np.arange(offs[i], offs[i + 1])
+        t['fit_args'] = tuple(a)
+        self.V[i] = [(v[2] + offs[i], v[1], v[2]) for v in self.V[i]]
+        for qn, args in self.Qidx[i].items():
+          meth = self.Q[i][qn][0]
+          self.Q[i][qn] = (meth, tuple([args[0] + offs[i]] + list(args[1:])))
 
   # ---- digests of everything the caller owns
   def arrays_digest(self):
@@ -154,7 +180,7 @@ class World:
       items.append(tr['fit_kwargs'])
       items.append(tr['X'])
     for vs in self.V:
-      items.append([list(v) for v in vs])
+      items.append([list(v[:2]) for v in vs])
     for q in self.Q:
       items.append({k: list(v[1]) for k, v in q.items() if v[0] != 'attr' and v[1]})
     for p in self.P:
@@ -180,7 +206,7 @@ class World:
 
   def calibrate(self, est, v, s):
     di = self.dim_index_of(est)
-    pairs, lab = self.V[di][v - 1]
+    pairs, lab = self.V[di][v - 1][:2]
     st, kw = STRATEGIES[s - 1]
     est.calibrate_threshold(pairs, lab, strategy=st, **kw)
 
@@ -218,6 +244,13 @@ def reference(w):
          'model': [], 'thrfit': [], 'thrset': [digest(float(t)) for t in w.T], 'thrcal': [], 'query': [],
          'metric': [], 'matrix': []}
   nq = len(w.qnames)
+  nk = 1 + w.nt + w.nv * w.ns
+  defaults = dict(gen.CLS[w.name]().get_params())
+
+  def switch(e, pc):
+    full = dict(defaults)
+    full.update(w.P[pc - 1])
+    e.set_params(**full)
   for p in range(1, np_ + 1):
     rm, rt, rc, rq, rme, rma = [], [], [], [], [], []
     for d in range(1, nd + 1):
@@ -225,37 +258,47 @@ def reference(w):
         e = w.new(p)
         w.fit(e, d)
         return e
+      none_q = [[['none'] * nq for _ in range(nk)] for _ in range(np_)]
+      none_c = [[['none'] * w.ns for _ in range(w.nv)] for _ in range(np_)]
       try:
         e = fresh()
       except ValueError:
         # this parameter setting cannot be fitted on this data (dimension-specific array): no value
-        rm.append('unfittable'); rt.append('none'); rc.append([['none'] * w.ns] * w.nv)
-        rq.append([['none'] * nq] * (1 + w.nt + w.nv * w.ns)); rme.append('none'); rma.append('none')
+        rm.append('unfittable'); rt.append('none'); rc.append(none_c); rq.append(none_q); rme.append('none'); rma.append('none')
         continue
       rm.append(digest(np.asarray(e.components_)))
       rt.append(digest(float(e.threshold_)) if w.has_thr else 'none')
       rme.append(digest(w.probe_metric(e.get_metric(), w.dims.index(w.dims[d - 1]))))   # probes depend on the dimension only
       rma.append(digest(e.get_mahalanobis_matrix()))
-      variants = [lambda est: None]
-      if w.has_thr:
-        for t in w.T:
-          variants.append(lambda est, t=t: est.set_threshold(t))
-        for v in range(1, w.nv + 1):
-          for s in range(1, w.ns + 1):
-            variants.append(lambda est, v=v, s=s: w.calibrate(est, v, s))
-      cal = [['none'] * w.ns for _ in range(w.nv)]
-      qs = []
-      for k, act in enumerate(variants):
-        e2 = fresh()
-        act(e2)
-        if k > w.nt:
-          kk = k - 1 - w.nt
-          cal[kk // w.ns][kk % w.ns] = digest(float(e2.threshold_))
-        qs.append([digest(w.query(e2, qi)) for qi in range(1, nq + 1)])
-      if not w.has_thr:
-        qs = qs + [qs[0]] * (w.nt + w.nv * w.ns)
-      rc.append(cal)
-      rq.append(qs)
+      qs_all, cal_all = [], []
+      for pc in range(1, np_ + 1):
+        qs = [['none'] * nq for _ in range(nk)]
+        cal = [['none'] * w.ns for _ in range(w.nv)]
+        for k in range(nk):
+          # which (threshold variant k, preprocessor-in-force pc) combinations are reachable: see MetricLearn.tla
+          if not w.has_thr and (k > 0 or pc != p):
+            continue
+          if k == 0 and pc != p:
+            continue
+          try:
+            e2 = fresh()
+            if pc != p:
+              switch(e2, pc)
+            if 1 <= k <= w.nt:
+              if pc != p:
+                w.calibrate(e2, 1, 1)          # (re-prepares the inputs: the new preprocessor comes into force)
+              e2.set_threshold(w.T[k - 1])
+            elif k > w.nt:
+              kk = k - 1 - w.nt
+              w.calibrate(e2, kk // w.ns + 1, kk % w.ns + 1)
+              cal[kk // w.ns][kk % w.ns] = digest(float(e2.threshold_))
+            qs[k] = [digest(w.query(e2, qi)) for qi in range(1, nq + 1)]
+          except Exception as ex:
+            qs[k] = ['raised:' + type(ex).__name__] * nq
+        qs_all.append(qs)
+        cal_all.append(cal)
+      rc.append(cal_all)
+      rq.append(qs_all)
     ref['model'].append(rm); ref['thrfit'].append(rt); ref['thrcal'].append(rc); ref['query'].append(rq)
     ref['metric'].append(rme); ref['matrix'].append(rma)
   return ref
@@ -304,7 +347,7 @@ def run(w, ops):
       elif kind == 'Calibrate':
         ev['obj'], ev['v'], ev['s'] = op[1], op[2], op[3]
         if not hasattr(objs[op[1] - 1], 'components_'):
-          objs[op[1] - 1].calibrate_threshold(*w.V[0][0])
+          objs[op[1] - 1].calibrate_threshold(*w.V[0][0][:2])
         else:
           w.calibrate(objs[op[1] - 1], op[2], op[3])
       elif kind == 'Query':
